@@ -3,7 +3,6 @@ package pipeline
 import (
 	"encoding/json"
 	"net/url"
-	"path"
 	"strings"
 
 	"gopkg.in/yaml.v3"
@@ -97,11 +96,11 @@ func (p *Plugin) FullSource() string {
 	switch len(paths) {
 	case 1:
 		// trimmed path contained no slash
-		return path.Join("github.com", "buildkite-plugins", lastSegment(paths[0], u.Fragment))
+		return "github.com/buildkite-plugins/" + lastSegment(paths[0], u.Fragment)
 
 	case 2:
 		// trimmed path contained one slash
-		return path.Join("github.com", paths[0], lastSegment(paths[1], u.Fragment))
+		return "github.com/" + paths[0] + "/" + lastSegment(paths[1], u.Fragment)
 
 	default:
 		// trimmed path contained more than one slash - apply no smarts
